@@ -48,6 +48,23 @@ func newUDPSink() *udpSink {
 	return s
 }
 func (s *udpSink) port() uint16 { return uint16(s.c.LocalAddr().(*net.UDPAddr).Port) }
+// settle waits until no new datagram has arrived for `quiet` (at most `max`).
+func (s *udpSink) settle(quiet, max time.Duration) {
+	deadline := time.Now().Add(max)
+	last, lastN := time.Now(), -1
+	for time.Now().Before(deadline) {
+		s.mu.Lock()
+		n := len(s.pkts)
+		s.mu.Unlock()
+		if n != lastN {
+			lastN, last = n, time.Now()
+		} else if time.Since(last) >= quiet {
+			return
+		}
+		time.Sleep(2 * time.Millisecond)
+	}
+}
+
 func (s *udpSink) take() [][]byte {
 	s.mu.Lock()
 	defer s.mu.Unlock()
@@ -285,7 +302,7 @@ func runRoundScenario(seed uint64, size int, t *Trace) error {
 		sink.take()
 		t0 := time.Now().Unix()
 		ok := c.VerifSyncRound(latest)
-		time.Sleep(40 * time.Millisecond)
+		sink.settle(40*time.Millisecond, 600*time.Millisecond)
 		close(stop)
 		wg.Wait()
 		if time.Now().Unix() != t0 {
